@@ -4,6 +4,7 @@
 //! exit codes: 0 ok, 2 usage / IO error, 3 watchdog (hang line appended to the trace)
 
 #![allow(dead_code)]
+mod appmode;
 mod codec;
 mod common;
 mod linkmode;
@@ -82,6 +83,7 @@ fn main() {
                     "link" => run_paused(linkmode::run_link(&sc)),
                     "mst" => run_paused(mst::run_scenario(&sc)),
                     "transport" => run_paused(linkmode::run_transport(&sc)),
+                    "codec" => run_paused(appmode::run_case(&sc)),
                     _ => {
                         eprintln!("unknown mode {m}");
                         std::process::exit(2);
